@@ -13,7 +13,7 @@ use zksync_concurrency::{limiter, time};
 use zksync_consensus_roles::{node, validator};
 use zksync_protobuf::{self as zp, ProtoFmt};
 
-use crate::wire::{self, Node, Style};
+use vwire::{self as wire, Node, Style};
 
 const STYLES: [Style; 5] = [
     Style { shuffle: true, packing: 0, overlong_varints: false },
